@@ -45,7 +45,7 @@ def gen_graphs(rng, tier):
         yield dict(tl=tl, finals=fin)
 
 
-def check_graph(inp, mods, rng=None):
+def _check_graph_once(inp, mods, rng=None):
     F = []
     rd = mods['reverse_dfs']
     tl, finals = inp['tl'], inp['finals']
@@ -81,4 +81,39 @@ def check_graph(inp, mods, rng=None):
         F.append(({'C07', 'C01'}, 'exact-sorted-once', f'returned {res[:12]!r}{"..." if len(res) > 12 else ""}, expected {exp[:12]!r}{"..." if len(exp) > 12 else ""}'))
     if tl != tl0 or finals != fin0:
         F.append(({'C07', 'C10'}, 'inputs-intact', 'reverse_dfs changed its arguments'))
+    return F
+
+
+def check_graph(inp, mods, rng=None):
+    """the clauses on the graph as given, then -- the statement is about EVERY transition list, also one the caller has edited since an
+    earlier search -- on the SAME list object after in-place edits of its inner lists (a transition removed, one added, one
+    redirected; outer object and length unchanged), each time against the expectation computed afresh"""
+    F = _check_graph_once(inp, mods, rng)
+    if F:
+        return F
+    tl, finals = inp['tl'], inp['finals']
+    n = len(tl)
+    if n < 2:
+        return F
+    import copy
+    saved = copy.deepcopy(tl)
+    edits = []
+    src = [u for u in range(n) if tl[u]]
+    if src:
+        u = src[(len(src) * 7) // 11 % len(src)]
+        edits.append(('remove-last-transition-of-%d' % u, lambda: tl[u].pop()))
+        edits.append(('redirect-first-transition-of-%d' % u, lambda: tl[u].__setitem__(0, (tl[u][0][0], (tl[u][0][1] + 1) % n))))
+    edits.append(('add-transition-%d-to-%d' % (n - 1, 0), lambda: tl[n - 1].append(('zz', 0))))
+    try:
+        for what, do in edits:
+            for u_ in range(n):            # every edit starts from the graph as given
+                tl[u_][:] = saved[u_]
+            do()
+            G = _check_graph_once(dict(inp, tl=tl), mods, rng)
+            if G:
+                F.extend((p_, c_, f'after an in-place edit of the same list object ({what}; graph now {tl!r:.300}): {d_}') for p_, c_, d_ in G)
+                break
+    finally:
+        for u in range(n):
+            tl[u][:] = saved[u]
     return F
